@@ -3,11 +3,14 @@
 use crate::core::Check;
 
 pub mod delta;
+pub mod history;
 
 pub fn all() -> Vec<&'static Check> {
     vec![
         &delta::C11,
         &delta::C12,
+        &history::C13,
+        &history::C14,
     ]
 }
 
